@@ -26,6 +26,8 @@ func genC11(r *simrt.Rand, tier string, idx int) *hx.Program {
 	p.P["seg"] = []int64{300, 1000, 100000}[r.Intn(3)]
 	p.P["cleaner_s"] = []int64{2, 5, 3600}[r.Intn(3)]
 	p.P["autopause_s"] = []int64{0, 2}[r.Intn(2)]
+	p.P["timeskip"] = []int64{0, 0, 0, 3}[r.Intn(4)] // time passes while tasks are runnable: cleaner tick, auto-pause and checkpoint timers fire inside cursor operations
+	p.P["skipmax_ms"] = []int64{50, 500, 2000}[r.Intn(3)]
 	nclients := 2 + r.Intn(5)
 	n := 8 + r.Intn(40)
 	if tier == "thorough" {
@@ -108,6 +110,7 @@ func execC11(t *testing.T, prog *hx.Program, dec *simrt.Decider, verbose bool) *
 		}
 		restarting := false
 		running := 0
+		h.s.SetTimeSkips(true)
 		for ci, name := range order {
 			ci, ops := ci, byClient[name]
 			running++
@@ -239,6 +242,7 @@ func execC11(t *testing.T, prog *hx.Program, dec *simrt.Decider, verbose bool) *
 			})
 		}
 		simrt.WaitUntil("clients", func() bool { return running == 0 || h.stop || h.oc.Trouble != "" })
+		h.s.SetTimeSkips(false)
 		if h.stop || h.oc.Trouble != "" {
 			return
 		}
